@@ -311,6 +311,15 @@ def correspond(ctx):
             Af = matrix(0.0, (2 * kl + ku + 1, n), tc); Af[kl:, :] = Ab0
             ipiv = matrix(0, (n, 1)); lapack.gbtrf(Af, n, kl, ipiv); X2 = +B; lapack.gbtrs(Af, kl, ipiv, X2); evals[0] += 2
             if not close(X2, X): viol('factor-solve-vs-driver:gbtrs', 'gbtrf+gbtrs differs from gbsv', dict(desc0, kl=kl, ku=ku))
+            for trans in 'TC':
+                try:
+                    Xt = +B; lapack.gbtrs(Af, kl, ipiv, Xt, trans=trans); evals[0] += 1
+                    Dop = D.T if trans == 'T' else D.H
+                    S.mat('At%s%s' % (trans, tag), Dop); S.mat('Xt%s%s' % (trans, tag), Xt)
+                    S.small('sub mul $At%s%s $Xt%s%s $B%s' % (trans, tag, trans, tag, tag), '$At%s%s' % (trans, tag), '$Xt%s%s' % (trans, tag),
+                            "gbtrf + gbtrs(trans='%s'): ||op(A) X - B||" % trans, dict(desc0, A=list(D), B=list(B), kl=kl, ku=ku, trans=trans))
+                except Exception as e:
+                    viol('raises-on-valid:gbtrs', "gbtrs(trans='%s') raised %s (%s)" % (trans, type(e).__name__, e), dict(desc0, kl=kl, ku=ku))
             # tridiagonal
             if n >= 1:
                 dl = rand(max(n - 1, 0), 1, tc); du = rand(max(n - 1, 0), 1, tc); d = rand(n, 1, tc) + 9
@@ -321,6 +330,18 @@ def correspond(ctx):
                 X = +B; lapack.gtsv(+dl, +d, +du, X); evals[0] += 1
                 S.mat('T' + tag, Td); S.mat('Y' + tag, X)
                 S.small('sub mul $T%s $Y%s $B%s' % (tag, tag, tag), '$T' + tag, '$Y' + tag, 'gtsv: ||A X - B||', dict(desc0, dl=list(dl), d=list(d), du=list(du), B=list(B)))
+                # factor + solve with every documented `trans`
+                fl, fd, fu = +dl, +d, +du; fu2 = matrix(0.0, (max(n - 2, 0), 1), tc); fp = matrix(0, (n, 1))
+                try:
+                    lapack.gttrf(fl, fd, fu, fu2, fp); evals[0] += 1
+                    for trans in 'NTC':
+                        Xt = +B; lapack.gttrs(fl, fd, fu, fu2, fp, Xt, trans=trans); evals[0] += 1
+                        Top = {'N': Td, 'T': Td.T, 'C': Td.H}[trans]
+                        S.mat('Tt%s%s' % (trans, tag), Top); S.mat('Yt%s%s' % (trans, tag), Xt)
+                        S.small('sub mul $Tt%s%s $Yt%s%s $B%s' % (trans, tag, trans, tag, tag), '$Tt%s%s' % (trans, tag), '$Yt%s%s' % (trans, tag),
+                                "gttrf + gttrs(trans='%s'): ||op(A) X - B||" % trans, dict(desc0, dl=list(dl), d=list(d), du=list(du), B=list(B), trans=trans))
+                except Exception as e:
+                    viol('raises-on-valid:gttrs', 'gttrf + gttrs with a documented trans raised %s (%s)' % (type(e).__name__, e), dict(desc0, dl=list(dl), d=list(d), du=list(du)))
                 # positive definite tridiagonal
                 dd = matrix([float(rng.randint(10, 14)) for _ in range(n)]); ee = rand(max(n - 1, 0), 1, tc)
                 Tp = matrix(0.0, (n, n), tc)
@@ -330,6 +351,16 @@ def correspond(ctx):
                 X = +B; lapack.ptsv(+dd, +ee, X); evals[0] += 1
                 S.mat('P' + tag, Tp); S.mat('Z' + tag, X)
                 S.small('sub mul $P%s $Z%s $B%s' % (tag, tag, tag), '$P' + tag, '$Z' + tag, 'ptsv: ||A X - B||', dict(desc0, d=list(dd), e=list(ee), B=list(B)))
+                for up2 in ('LU' if tc == 'z' else 'L'):
+                    try:
+                        fd2 = +dd; fe2 = +ee if up2 == 'L' else matrix([v.conjugate() for v in ee], ee.size, 'z')      # 'U': e is the superdiagonal
+                        lapack.pttrf(fd2, fe2); Xp = +B
+                        if tc == 'z': lapack.pttrs(fd2, fe2, Xp, uplo=up2)
+                        else: lapack.pttrs(fd2, fe2, Xp)
+                        evals[0] += 2
+                        if not close(Xp, X, 1e-9): viol('factor-solve-vs-driver:pttrs', 'pttrf + pttrs(uplo=%s) differs from ptsv' % up2, dict(desc0, d=list(dd), e=list(ee), uplo=up2))
+                    except Exception as e:
+                        viol('raises-on-valid:pttrs', 'pttrf + pttrs(uplo=%s) raised %s (%s)' % (up2, type(e).__name__, e), dict(desc0, d=list(dd), e=list(ee)))
             # positive definite band (pbsv, pbtrf + pbtrs) and triangular band (tbtrs)
             kd = rng.randint(0, min(2, n - 1)); uplo = rng.choice('LU')
             Pb = matrix(0.0, (n, n), tc)
@@ -379,11 +410,14 @@ def correspond(ctx):
         bump('judged:' + what.split(':')[0].split('(')[0])
         if not o.startswith('true'):
             ctx.violation('c18:residual:' + what.split(':')[0].split('(')[0], '%s is not small: checker says %s' % (what, o[:80]), desc)
+    # offsets and leading dimensions: the same call on plain matrices and on matrices embedded in larger buffers (c19_lapack.embed_probes)
+    from corr import c19_lapack
+    evals[0] += c19_lapack.embed_probes(ctx, rng, ctx.build, 'C18')
     ctx.cov.update({'evaluations': evals[0] + judged, 'distinct_nontrivial': judged,
                     'rule': '%d rounds x (typecode d/z, order 0..5, 0..3 right-hand sides): general, positive definite, symmetric, hermitian, triangular, band, tridiagonal '
                             'systems (drivers, factor+solve, inverses, uplo / trans / diag options, arbitrary values in the unreferenced triangle), least squares, QR / LQ '
                             'with explicit Q and apply-Q, symmetric/hermitian eigenvalue routines, SVD (two drivers), Schur; exactly singular and non-positive-definite inputs, '
-                            'size- and type-inconsistent arguments' % rounds,
+                            'size- and type-inconsistent arguments; embedding invariance of all wrappers (offset / leading-dimension keywords)' % rounds,
                     'outcomes': stat})
 
 def search(ctx, why): return
